@@ -74,6 +74,13 @@ class Gen:
             c["_failhow"] = r.choice(["exit 1", "exit 1", "exit 2", "exit 255", "kill -TERM $$", "kill -USR1 $$", "kill -ABRT $$", "kill -HUP $$"])
             if c["_depstyle"] == "makefile" and any(":" in x for x in reads): c["_depstyle"] = c["_depfmt"] = "depinfo"   # makefile syntax cannot express ':'
             cmds[name] = c; order.append(name); outs_avail += outs
+        if f in ("C08", "C12") and r.random() < 0.35:
+            # a command that produces a directory, and a consumer of that directory (tree signature of a produced node)
+            nd = node("dir", "gd"); nd["inner"] = "gd/f"; self.nodes["gd/"] = nd
+            self.fs0["gd"] = dict(t="none", c=""); self.fs0["gd/f"] = dict(t="none", c=""); self.absent("ogd")
+            cmds["cg"] = cmd(ins=[r.choice(srcs)], outs=["gd/"], tag="cg"); order.append("cg")
+            cmds["cgu"] = cmd(ins=["gd/"] + ([r.choice(srcs)] if r.random() < 0.5 else []), outs=["ogd"], tag="cgu"); order.append("cgu")
+            outs_avail.append("ogd"); self.gd = True
         targets = {}
         finals = [o for o in outs_avail if self.nodes[o]["kind"] == "file"] or [outs_avail[-1]]
         tn = r.sample(finals, r.randint(1, min(2, len(finals))))
@@ -220,6 +227,9 @@ class Gen:
             elif op == "edit": steps.append(("write", r.choice(self.sources), r.choice("01")))
             elif op == "touch": steps.append(("touch", r.choice(self.sources)))
             elif op == "rm_out" and outs: steps.append(("rm", r.choice(outs)))
+            elif op == "tamper" and getattr(self, "gd", False) and r.random() < 0.5:
+                steps.append(r.choice([("write", "gd/f", "junk"), ("rm", "gd/f"), ("rm", "gd"), ("write", "gd/extra", "x"), ("touch", "gd/f")]))
+                self.fs0.setdefault("gd/extra", dict(t="none", c=""))
             elif op == "tamper" and outs: steps.append(("write", r.choice(outs), "junk"))
             elif op == "marker":
                 m = r.choice(self.markers); steps.append(r.choice([("write", m, "x"), ("rm", m)]))
